@@ -13,7 +13,7 @@ typedef tuple_intersection<uint32_t, comb_policy> tin;
 typedef tuple_a_not_b<uint32_t> anb;
 WRAP uint16_t w_seed_hash(uint64_t seed) { return compute_seed_hash(seed); }
 WRAP cts* w_ctup_make(uint8_t is_empty, uint8_t is_ordered, uint16_t seed_hash, uint64_t theta, const uint64_t* keys, const uint32_t* sums, uint32_t n) {
-  std::vector<std::pair<uint64_t, uint32_t>> v; v.reserve(n); for (uint32_t i = 0; i < n; i++) v.emplace_back(keys[i], sums[i]);
+  std::vector<std::pair<uint64_t, uint32_t>> v; v.reserve(n); for (uint32_t i = 0; i < n; i++) v.push_back(std::pair<uint64_t, uint32_t>(keys[i], sums[i]));
   return new cts(is_empty, is_ordered, seed_hash, theta, std::move(v));
 }
 WRAP void w_ctup_delete(cts* c) { delete c; }
